@@ -419,7 +419,10 @@ pub fn verif_matrix(input: &str) -> String {
     for (t, r) in RECOGNIZERS.iter().enumerate() {
         for &p in &positions {
             match std::panic::catch_unwind(std::panic::AssertUnwindSafe(|| r.recognize(&input[p..]))) {
-                Ok(Some(m)) => out += &format!(" {}@{}={}{}", t, p, m.len(), if input[p..].starts_with(m) { "" } else { "!" }),
+                // `!`: not a prefix of the suffix it was given; `^`: equal text but NOT the slice of the input buffer (C13:
+                // a token's value is the very slice of the input at its span)
+                Ok(Some(m)) => out += &format!(" {}@{}={}{}", t, p, m.len(),
+                    if !input[p..].starts_with(m) { "!" } else if !m.is_empty() && m.as_ptr() != input[p..].as_ptr() { "^" } else { "" }),
                 Ok(None) => (),
                 Err(_) => out += &format!(" {}@{}=PANIC!", t, p),
             }
@@ -744,10 +747,11 @@ def mirror_tie(rep, cases, sel):
                     c.problems.append(("impl≠oracle", f"the compiled generated parser answers `{pa}` on input {inp!r} where the runtime driven "
                                        f"from the computed table answers `{pv}` (settings {' '.join(c.settings)})"))
             if got.strip() != lc.matrices[k].strip():
-                c.problems.append(("impl≠oracle" if "!" in got else "mirror",
+                c.problems.append(("impl≠oracle" if ("!" in got or "^" in got) else "mirror",
                                    f"generated recognizers and their harness mirror disagree on input {inp!r}: generated `{got.strip()[:200]}` "
                                    f"mirror `{lc.matrices[k].strip()[:200]}`" + (" (`!`: the generated recognizer returned a string that is "
-                                   "not a prefix of the input it was given)" if "!" in got else "")))
+                                   "not a prefix of the input it was given)" if "!" in got else
+                                   " (`^`: the generated recognizer returned a string that is not a slice of the input buffer)" if "^" in got else "")))
 
 
 def evaluate_behaviour(rep, c):
